@@ -331,6 +331,101 @@ theorem squash_keySorted (l : List Point) (hip : l.Pairwise (fun a b => a.ip ≤
     (squash [] l).Pairwise (fun u v => u.ip < v.ip ∨ (u.ip = v.ip ∧ u.maskLen < v.maskLen)) :=
   squash_keySorted_aux l [] hip (fun _ h => by cases h) List.Pairwise.nil (by simpa using hval)
 
+/-- adjacent-pairs predicate (core 4.33 has no `List.IsChain` in scope here) -/
+def Adj {α} (R : α → α → Prop) : List α → Prop
+  | [] => True
+  | [_] => True
+  | a :: b :: l => R a b ∧ Adj R (b :: l)
+
+theorem Adj.of_pairwise {α} {R : α → α → Prop} {l : List α} (h : l.Pairwise R) : Adj R l := by
+  induction l with
+  | nil => trivial
+  | cons a l ih =>
+    cases l with
+    | nil => trivial
+    | cons b l =>
+      rw [List.pairwise_cons] at h
+      exact ⟨h.1 b List.mem_cons_self, ih h.2⟩
+
+theorem squash_single_cons (prev p : Point) (rest : List Point) :
+    squash [prev] (p :: rest) =
+      if prev.ip = p.ip ∧ prev.maskLen ≥ p.maskLen then squash [p] rest
+      else prev :: squash [p] rest := by
+  simp only [squash]
+  by_cases hc : prev.ip = p.ip ∧ prev.maskLen ≥ p.maskLen
+  · simp only [hc, if_true, and_self]
+  · simp only [hc, if_false]
+    rw [squash_acc p [prev]]; rfl
+
+theorem squash_single_head (p : Point) (rest : List Point) :
+    ∃ h t, squash [p] rest = h :: t ∧ h.ip = p.ip ∧ (h = p ∨ h ∈ rest) := by
+  induction rest generalizing p with
+  | nil => exact ⟨p, [], by simp [squash_nil], rfl, Or.inl rfl⟩
+  | cons q rest ih =>
+    rw [squash_single_cons]
+    by_cases hc : p.ip = q.ip ∧ p.maskLen ≥ q.maskLen
+    · simp only [hc, if_true, and_self]
+      obtain ⟨h, t, e, hip, hm⟩ := ih q
+      refine ⟨h, t, e, (by have := hc.1; omega), Or.inr ?_⟩
+      rcases hm with rfl | hm
+      · exact List.mem_cons_self
+      · exact List.mem_cons_of_mem _ hm
+    · simp only [hc, if_false]
+      exact ⟨p, _, rfl, rfl, Or.inl rfl⟩
+
+theorem squash_single_adj (p : Point) (rest : List Point) (hv : Valley (p :: rest)) :
+    Adj (fun u v : Point => ¬ (u.ip = v.ip ∧ u.maskLen ≥ v.maskLen)) (squash [p] rest) := by
+  induction rest generalizing p with
+  | nil => simp [squash_nil, Adj]
+  | cons q rest ih =>
+    rw [squash_single_cons]
+    have ihq := ih q (Valley.sublist (List.sublist_cons_self _ _) hv)
+    by_cases hc : p.ip = q.ip ∧ p.maskLen ≥ q.maskLen
+    · simp only [hc, if_true, and_self]; exact ihq
+    · simp only [hc, if_false]
+      obtain ⟨h, t, e, hip, hm⟩ := squash_single_head q rest
+      rw [e] at ihq ⊢
+      refine ⟨?_, ihq⟩
+      rcases hm with rfl | hm
+      · exact hc
+      · have hsub : [p, q, h].Sublist (p :: q :: rest) :=
+          (List.Sublist.cons_cons p (List.Sublist.cons_cons q (List.singleton_sublist.mpr hm)))
+        have := hv p q h hsub
+        omega
+
+theorem squash_adjacent (l : List Point) (hval : Valley l) :
+    Adj (fun u v : Point => ¬ (u.ip = v.ip ∧ u.maskLen ≥ v.maskLen)) (squash [] l) := by
+  cases l with
+  | nil => simp [squash, Adj]
+  | cons p rest => simpa [squash] using squash_single_adj p rest hval
+
+
+/-- statements 9/10 are false without `Valley`: the replacement looks one point back only -/
+example : squash [] [⟨1, 5, none, .start⟩, ⟨1, 10, none, .start⟩, ⟨1, 3, none, .start⟩]
+    = [⟨1, 5, none, .start⟩, ⟨1, 3, none, .start⟩] := by decide
+
+theorem Valley.nil : Valley [] := by
+  intro a b c h; cases h
+
+theorem Valley.cons {a : Point} {l : List Point} (hv : Valley l)
+    (h : ∀ b c : Point, [b, c].Sublist l → a.ip = b.ip → b.ip = c.ip →
+      a.maskLen < b.maskLen → a.maskLen < c.maskLen) : Valley (a :: l) := by
+  intro x b c hs
+  rcases List.sublist_cons_iff.mp hs with hs | ⟨r, e, hs⟩
+  · exact hv x b c hs
+  · cases e
+    exact h b c hs
+
+/-- a sufficient condition: at one address the mask lengths never decrease -/
+theorem Valley.of_pairwise_le {l : List Point}
+    (h : l.Pairwise (fun a b => a.ip = b.ip → a.maskLen ≤ b.maskLen)) : Valley l := by
+  intro a b c hs h1 h2 h3
+  have := List.Pairwise.sublist hs h
+  simp only [List.pairwise_cons, List.mem_cons, List.not_mem_nil, or_false, forall_eq_or_imp,
+    forall_eq] at this
+  have := this.2.1 h2
+  omega
+
 /-! ## C. predecessor search -/
 
 /-- the fold step of `lookup` -/
